@@ -269,7 +269,7 @@ def _match_known(pid, known, suite, op, impl, model):
     for f in known.get("findings", []):
         if pid not in f.get("properties", [f.get("property")]):
             continue
-        if f.get("suite") and f["suite"] != suite.name:
+        if f.get("suite") and suite.name not in (f["suite"] if isinstance(f["suite"], list) else [f["suite"]]):
             continue
         fn = suite.matchers.get(f["matcher"])
         if fn is None:
